@@ -250,6 +250,7 @@ def r2(k: Kit) -> None:
               f'critical flags are {sorted(crit)}', fi.loc(fi.node))
     do = k.func('public_key.SSHOpenSSHCertificate._decode_options')
     outs = {}
+    reads = {}
     for crit_v in (True, False):
         for known in (True, False):
             strings = [b'opt', b'data']
@@ -278,6 +279,19 @@ def r2(k: Kit) -> None:
                 rep.error('C16.R2', 'not-evaluable', str(exc))
                 return
             outs[(crit_v, known)] = o.kind
+            reads[(crit_v, known)] = len(o.called('packet.get_string'))
+    # every option that is not an error consumes exactly its name and its
+    # data string, whether it is understood or not
+    skew = {kk: v for kk, v in reads.items()
+            if outs.get(kk) != 'raise' and v != 2}
+    rep.check(not skew, 'C16.R2', key(do, 'each option consumes name + data'),
+              'one iteration of the option loop reads two strings',
+              'an option that is skipped (unknown, non-critical) leaves its '
+              f'data string unread {skew}: the next iteration takes that '
+              'data for an option name, so a certificate with an unknown '
+              'extension is mis-parsed - its value can switch on a '
+              'permission the CA never granted, or the certificate is '
+              'rejected as invalid', do.loc(do.node))
     rep.check(outs.get((True, False)) == 'raise' and
               outs.get((False, False)) != 'raise' and
               outs.get((True, True)) != 'raise', 'C16.R2',
